@@ -145,6 +145,7 @@ func TestC11(t *testing.T) {
 	defer r.Close()
 	meta := valsettypes.MsgMetadata{Creator: "c", Signers: []string{"c"}}
 	c11CrossType(t, r, meta)
+	c11DigitShifts(t, r, meta)
 	for i := 0; i < r.N; i++ {
 		// ---- random claims of each type ----
 		sp := &skytypes.MsgSendToPalomaClaim{EventNonce: r.U64(), EthBlockHeight: r.U64(), TokenContract: r.c11Str(), Amount: r.c11Int(), EthereumSender: r.c11Str(),
